@@ -200,3 +200,27 @@ PROPS["C14"] = {
         {"test": "^TestInterceptorFecAfterMedia$", "checks": 5000, "shards": 8, "timeout": 900},
     ],
 }
+
+PROPS["C09"] = {
+    "pkg": "c09",
+    "technique": "property-based testing with a symbolic ground truth encoded by an independent TWCC/RFC 8888 encoder (differential against the truth), plus closed-loop runs against the library's own feedback generators",
+    "level_text": "Generated send histories and feedback built from a per-number ground truth (every chunk encoding, padded final chunks, evicted/unknown/never-sent numbers) "
+                  "are fed to internal/cc.FeedbackAdapter and, as bytes, to rtpfb.Interceptor; every acknowledgement / PacketReport is matched against the send log and the truth "
+                  "for that number. Closed loop: the library's twcc and rfc8888 recorders observe a generated lossy delivery and their output is decoded back. Exploration.",
+    "level_note": "trusts: the symbolic encoder (round-trip tested against pion/rtcp and an independent decoder); an arrival at exactly the zero instant is not distinguishable "
+                  "from 'not arrived' in the API and is not asserted; rtpfb departure is bracketed by wall-clock reads; closed loop delivers the first packet first "
+                  "(unwrapper floor at zero); two behaviours pinned by existing tests are listed known findings",
+    "assumptions": ["feedback is well-formed (inconsistent feedback is C02's subject)", "rtpfb: numbers are unique per stream within a case"],
+    "quick": [
+        {"test": "^TestRegress", "timeout": 120},
+        {"test": "^TestAdapterAttributesFeedback$", "checks": 3000, "steps": 60, "timeout": 300},
+        {"test": "^TestRtpfbReports$", "checks": 2000, "steps": 60, "timeout": 300},
+        {"test": "^(TestClosedLoopTWCC|TestClosedLoopRFC8888)$", "checks": 1500, "timeout": 300},
+    ],
+    "thorough": [
+        {"test": "^TestRegress", "timeout": 120},
+        {"test": "^TestAdapterAttributesFeedback$", "checks": 25000, "steps": 80, "shards": 6, "timeout": 900},
+        {"test": "^TestRtpfbReports$", "checks": 20000, "steps": 80, "shards": 5, "timeout": 900},
+        {"test": "^(TestClosedLoopTWCC|TestClosedLoopRFC8888)$", "checks": 20000, "shards": 5, "timeout": 900},
+    ],
+}
